@@ -16,7 +16,7 @@ RULE = ("Generated expression trees (recursive Hypothesis strategy, depth <= 6) 
         "statistics_from_samples of the composite == var/mean of the interpreter's per-sample values. Rejection cases: observable "
         "* observable -> ValueError, str/None/list/tensor operands -> TypeError, at build time. Non-trivial = depth >= 3 with a "
         "reflected operator (scalar - obs or scalar * obs) and a subtraction.")
-RULE_EXT = ('Extended as built: every expression is evaluated in two passes (operand re-evaluation), leaves shared by several parents, same-named leaves, coefficients 1e-9..1e9, integer (long) sample batches with tolerance 1e-5 (float32 promotion).')
+RULE_EXT = ('Extended as built: every expression is evaluated in two passes (operand re-evaluation), leaves shared by several parents, same-named leaves, coefficients 1e-9..1e9, integer (long) sample batches with tolerance 1e-5 (float32 promotion). Rounds 5-6: batch tensor advanced in place and parameters changed in place between applications of the same composite; first result held across later applications; in-place edit of a result does not leak; numpy int64/int32/float32 and Fraction operands either refused or evaluated as that number; float32 (integer-batch) tolerance relative to the sum of term magnitudes.')
 RULE = RULE + " " + RULE_EXT
 ASSUMPTIONS = ["rtol 1e-12 (+1e-12 absolute); float scalars are 0 or >= 1e-3 in magnitude (no denormal-range products)", "numpy integer scalars are not Python ints and are not generated (the library documents int/float)"]
 
@@ -174,6 +174,7 @@ def check(c):
     keep = samples.clone()
     got = obs.apply(state, samples)
     require(torch.equal(samples, keep), "mutated", "composite.apply modified the batch")
+    got_keep = got.detach().clone() if isinstance(got, torch.Tensor) else None
     want = interp(e, state, samples)
     require(isinstance(got, torch.Tensor) and tuple(got.shape) == (len(c["batch"]),), "apply:shape", f"composite.apply returned {type(got).__name__} of shape {getattr(got, 'shape', None)}")
     require(bool(torch.all((got.double() - want).abs() <= 1e-12 * want.abs() + 1e-12 * min(1.0, float(want.abs().max()) + 1e-30))), "apply:value",
@@ -207,6 +208,14 @@ def check(c):
         w2 = interp(e, state, samples)
         require(bool(torch.all((g2 - w2).abs() <= 1e-12 * w2.abs() + 1e-12 * min(1.0, float(w2.abs().max()) + 1e-30))), "apply:value:after-inplace-change",
                 f"composite.apply on the same tensor object after the {step} is not the arithmetic on the leaves' current values", got=g2.tolist(), want=w2.tolist(), symbol=str(obs))
+    # the tensor returned by the FIRST application is still held: the later applications of the same composite (same batch size) must not
+    # have changed it, and editing a result in place must not leak into the next application
+    require(torch.equal(got, got_keep), "apply:earlier-result-changed", "the tensor returned by an earlier composite.apply changed when the composite was applied again", symbol=str(obs))
+    g3 = obs.apply(state, samples)
+    g3_keep = g3.detach().clone()
+    g3.add_(1.0)
+    g4 = obs.apply(state, samples)
+    require(torch.equal(g4, g3_keep), "apply:result-edit-leaks", "editing the tensor returned by composite.apply in place changed the next application", symbol=str(obs))
     refl = has(e, lambda x: "op" in x and "num" in x["l"] and x["op"] in "-*")
     sub_ = has(e, lambda x: x.get("op") == "-")
     return {"nontrivial": depth(e) >= 3 and refl and sub_, "labels": [f"depth={min(depth(e), 6)}", "type=" + c["type"]] + (["reflected"] if refl else [])}
@@ -214,7 +223,7 @@ def check(c):
 
 @st.composite
 def bad_builds(draw, tier):
-    return {"kind": draw(st.sampled_from(["obs*obs", "str", "none", "list", "tensor", "dict"])), "op": draw(st.sampled_from(["+", "-", "*"])),
+    return {"kind": draw(st.sampled_from(["obs*obs", "str", "none", "list", "tensor", "dict", "np.int64", "np.int32", "np.float32", "fraction"])), "op": draw(st.sampled_from(["+", "-", "*"])),
             "side": draw(st.sampled_from(["left", "right"])), "l": draw(exprs), "r": draw(exprs)}
 
 
@@ -224,6 +233,23 @@ def check_bad(c):
         b = build(c["r"])
         expect_raises(ValueError, lambda: a * b, "build:obs*obs-accepted", "observable * observable")
         return {}
+    if c["kind"] in ("np.int64", "np.int32", "np.float32", "fraction"):
+        # real numbers that are not Python int/float: the library may refuse them (TypeError at build time) - but if it accepts one, the
+        # composite must be the arithmetic with that number (never a silently dropped operand)
+        import fractions
+        val = {"np.int64": np.int64(3), "np.int32": np.int32(-2), "np.float32": np.float32(0.5), "fraction": fractions.Fraction(3, 4)}[c["kind"]]
+        try:
+            comp = a + val if c["op"] == "+" else a - val if c["op"] == "-" else a * val
+        except TypeError:
+            return {"labels": ["numeric-nonbuiltin:refused"]}
+        st_ = make_state({"n": 3, "seed": 1, "type": "positive"})
+        smp = R.rows_from_indices([0, 5, 3, 6, 7], 3)
+        leafv = interp(c["l"], st_, smp)
+        want = leafv + float(val) if c["op"] == "+" else leafv - float(val) if c["op"] == "-" else leafv * float(val)
+        got = comp.apply(st_, smp).double()
+        require(bool(torch.all((got - want).abs() <= 1e-6 * (1 + want.abs()))), "build:non-builtin-number-accepted-but-wrong",
+                f"observable {c['op']} {type(val).__name__} was accepted but does not evaluate to the arithmetic with that number", got=got.tolist(), want=want.tolist())
+        return {"labels": ["numeric-nonbuiltin:accepted"]}
     other = {"str": "2", "none": None, "list": [1.0], "tensor": torch.tensor(2.0), "dict": {"a": 1}}[c["kind"]]
     def go():
         x, y = (other, a) if c["side"] == "left" else (a, other)
